@@ -164,6 +164,35 @@ CHECKS["C15"] = dict(
     technique="Lean 4 proof (mutual induction over nested-inductive documents; cache-prefix invariant) + pinned-source tie + differential correspondence",
     design="5/C15")
 
+CHECKS["C09"] = dict(
+    text="Lean 4: rows_once_in_order, empty_sheet_no_rows, headingSchema_nodup (distinct headings -> name maps to its column number), "
+         "by_name, short_row_absent, present_cells_unshifted, values_in_header_order, perm_invariant (any column permutation leaves every "
+         "value-by-name unchanged), external_positions. Corresponded with the real CSV/XLSX readers + HeadingRowSchemaLoader/WBNav/Row on "
+         "generated tables, all column permutations (<= 4 columns), ragged rows, empty sheets, external schema sheets.",
+    note="Trusted: Lean kernel; the facade functions are modelled by hand and pinned (Tie/C09); csv/openpyxl deliver what was written "
+         "(observed); header names distinct; the 'absent' marker is the value [None].",
+    technique="Lean 4 proof (list/index lemmas over the heading dictionary model) + pinned-source tie + differential correspondence with permutation enumeration",
+    design="5/C09")
+CHECKS["C03"] = dict(
+    text="PARTIAL. Lean 4 proves the facade part for every table: format_transparent (the client's observation is a function of what the "
+         "unpacker delivers and nothing else) and observe_is_the_table (sheet names, rows after the heading once and in order, under every "
+         "column name the cell of that column). That each third-party reader delivers the cells that were written is the theorem's "
+         "hypothesis; it is OBSERVED on real files: the same generated table written as CSV, TAB, NDJSON, XLSX, ODS, Numbers, fixed-width "
+         "text and EBCDIC (generated copybook) must read back identically through the uniform calls.",
+    note="Not modelled: csv, json, openpyxl, pyexcel-ods3, numbers-parser, xlrd (XLS cannot be written offline). Numbers sheet names "
+         "'sheet::table' are compared without the table part; fixed-width cells are compared without trailing blanks; cells are non-empty text.",
+    technique="Lean 4 proof of the facade (congruence + the C09 lemmas) with the readers' behaviour as an explicit hypothesis, validated by cross-format differential testing",
+    design="5/C03, 7")
+CHECKS["C14"] = dict(
+    text="PARTIAL. Lean 4: later_registration_wins, registration_is_local, unknown_suffix_refused (registry as an association map); "
+         "exit_releases (for every operation sequence inside the with-block, after __exit__ no handle is held), close_idempotent. The OS "
+         "descriptor table is OBSERVED by fault enumeration: every workbook class x every raise point x {path, caller's file object}, "
+         "/proc/self/fd checked right after the block.",
+    note="Not modelled: the operating system's descriptor table and third-party libraries' own handles. Known finding D29 (Numbers "
+         "descriptor released only by the cyclic garbage collector).",
+    technique="Lean 4 proof (association-map lemmas; fold over operation sequences) + pinned-source tie + fault enumeration over raise points with /proc/self/fd observation",
+    design="5/C14, 7")
+
 NOT_APPLICABLE = {
 }
 
